@@ -360,9 +360,26 @@ class Evaluator(object):
         return form.apply("map", [body, seq] + conds)
 
     ev_GeneratorExp = ev_ListComp
-    ev_Lambda = ev_ListComp
-    ev_Dict = ev_ListComp
-    ev_JoinedStr = ev_ListComp
+
+    def ev_Dict(self, node, path):
+        items = []
+        for k, v in zip(node.keys, node.values):
+            if k is None:
+                return form.apply("expr:" + norm(node), [])
+            kv, vv = self.ev(k, path), self.ev(v, path)
+            if isinstance(vv, list):
+                vv = form.apply("pylist", [tuple(vv)]) if all(isinstance(x, Rat) for x in vv) else form.apply("expr:" + norm(v), [])
+            if not isinstance(kv, Rat) or not isinstance(vv, Rat):
+                return form.apply("expr:" + norm(node), [])
+            items.append((kv, vv))
+        return form.apply("pydict", [tuple(x for kv in items for x in kv)])
+
+    def ev_opaque(self, node, path):
+        return form.apply("expr:" + norm(node), [])
+    ev_Lambda = ev_opaque
+    ev_JoinedStr = ev_opaque
+    ev_DictComp = ev_opaque
+    ev_SetComp = ev_opaque
 
     # -- statements ----------------------------------------------------------------------
     def _event(self, kind, path, node, **kw):
